@@ -79,11 +79,11 @@ PROPS["C02"] = dict(
 PROPS["C06"] = dict(
     level="proof",
     technique="Lean 4 loop-invariant proof: the imperative in-place array tree hash (model of tree_hash_cnt/tree_hash with every assert and index checked) equals the recursive CryptoNote definition for every hash function and every n <= 2^28; blob/id formulas by unfolding; differential check for every n in an initial segment and around powers of two",
-    level_text="C06_tree_eq_spec proves, for every H, root and list of extra hashes with count <= 2^28, that the model of the Rust loops (doubling loop with both asserts, first in-place pairing loop, assert_eq, halving loops, final combine; none = panic) returns exactly the recursive CryptoNote tree hash; C06_cnt characterises tree_hash_cnt; C06_blob / C06_id / C06_exception give the PoW blob, the id and the block-202612 substitution. The model instantiated with the reference Keccak reproduces the library's tree_hash for every n <= 300 (1100 thorough) and 2^k-2..2^k+2, and tx_root / hashable blob / id of generated blocks and of block 202612. Session 4: C06_consts / C06_id_gen (the 202612 constants of the current source are the ones the theorems use), C06_parsed_block and C06_described_block (for every block, no size hypothesis), C06_tree_defined_iff (the model panics exactly above 2^28 leaves); Monero's 16 tree-hash vectors and an accepted PoW blob as known answers.",
-    level_note="Trusted: Lean kernel; model/Rust correspondence of the loops is differential; Keccak-256 itself is tiny-keccak (C17); the header bytes and miner-tx hash fed to the Lean side come from the library (the Block codec model is C01/C02's, the tx id is C05's).",
+    level_text="C06_tree_eq_spec proves, for every H, root and list of extra hashes with count <= 2^28, that the model of the Rust loops (doubling loop with both asserts, first in-place pairing loop, assert_eq, halving loops, final combine; none = panic) returns exactly the recursive CryptoNote tree hash; C06_cnt characterises tree_hash_cnt; C06_blob / C06_id / C06_exception give the PoW blob, the id and the block-202612 substitution. The model instantiated with the reference Keccak reproduces the library's tree_hash for every n <= 300 (1100 thorough) and 2^k-2..2^k+2, and tx_root / hashable blob / id of generated blocks and of block 202612. Session 4/5: C06_consts / C06_id_gen (the 202612 constants of the current source are the ones the theorems use); C06_every_block: for EVERY block value of the model (any header fields, miner transaction and list of hashes; parsed or assembled in memory), total in the number n of listed hashes: the serialised header is the by-the-book layout of the header's fields (prev_id verbatim), and tx_root / serialize_hashable / id are the CryptoNote root of (miner-tx id :: hashes), header ++ root ++ varint(n+1) and the (202612-substituted) Keccak of the length-prefixed blob exactly when n+1 <= 2^28, and panic above (C06_tree_panics / C06_block_panics / C06_tree_defined_iff); C06_parsed_block: for every output of the decoder model the condition always holds (no size hypothesis) and the header is the leading bytes of the block; C06_described_block: the same total statement for a block given by a description of its fields. Monero's 16 tree-hash vectors and an accepted PoW blob as known answers; blocks whose prev_id is one of the two 202612 constants, all-zero / repeated leaves at every small position, and pairs of blocks sharing header and count hashed one after the other are generated families.",
+    level_note="Trusted: Lean kernel; model/Rust correspondence of the loops is differential; Keccak-256 itself is tiny-keccak (C17); the MODEL side of a block operation computes header bytes, miner-tx id and hashes from the block bytes (Block codec model of C01/C02, model of Transaction::hash of C05); the header bytes and miner-tx hash fed to the SPEC side come from the library and are compared in Rust with the by-the-book layout of the header's field values and with an identifier computed without Transaction::hash. The theorems are about model values whose fields are unbounded naturals / byte strings of any length; the values of the Rust types are among them. That the miner-transaction id is passed FIRST is the definition of the model txRoot (checked differentially), not a theorem.",
     design_ref="DESIGN.md §6 C06",
-    rule="every leaf count n in 1..=300 (quick) / 1..=1100 (thorough), 2^k-2..2^k+2 for k <= 12 / 16, generated blocks with hash counts around powers of two, block 202612.",
-    assumptions=["count <= 2^28 (the code's own assert; guaranteed for parsed blocks by the allocation cap)"],
+    rule="every leaf count n in 1..=300 (quick) / 1..=1100 (thorough), 2^k-2..2^k+2 for k <= 12 / 16, generated blocks with hash counts around powers of two, block 202612 (embedded) and its neighbours; blocks with prev_id = each 202612 constant (and one-bit neighbours, children of 202612, parent-child chains); a zero leaf / equal neighbours at every position for n <= 24 (64 thorough), null hashes at every listed position of blocks with <= 6 (10) hashes; 56 (160) pairs of blocks sharing header and count, each method a,b,b,a and all three in permuted orders.",
+    assumptions=["leaf count <= 2^28 for a value to exist (the code's own assert; above it the library panics, and C06_every_block / C06_tree_defined_iff state both arms, so the block-level statement itself is total; parsed blocks are always below by the allocation cap, C06_parsed_block)"],
     gen_items=["correctId202612", "existingId202612"],
 )
 
